@@ -152,7 +152,8 @@ theorem weights_ignored_dist (W : AMat Rat n) :
 /-- `binarize` on the integer matrices of the k-core model -/
 def binI (A : AMat Int n) : AMat Int n := AMat.map (fun x => if x = 0 then 0 else 1) A
 
-/-- `kcore_bd` / `kcore_bu` (models of C15): the k-core node set and its size `kn` are the same for `W` and
+/-- `kcore_bd` / `kcore_bu` (models of C15): the k-core node set (and, for `k ≥ 1`, its size `kn`:
+`weights_ignored_kcore_kn`, `weights_ignored_kcore_kn_bu`) are the same for `W` and
 `binarize(W)` (the returned matrices are the respective inputs restricted to that set: `C15.kcore_bd_correct`) -/
 theorem weights_ignored_kcore (A : AMat Int n) (k : ℕ) :
     C15.coreOfBd (binI A) k = C15.coreOfBd A k ∧
@@ -171,6 +172,13 @@ theorem weights_ignored_kcore (A : AMat Int n) (k : ℕ) :
 theorem weights_ignored_kcore_kn (A : AMat Int n) (k : ℕ) (hk : 1 ≤ k) :
     (Core.kcoreBd (binI A) k).kn = (Core.kcoreBd A k).kn := by
   rw [(C15.kcore_bd_correct (binI A) k hk).2.2, (C15.kcore_bd_correct A k hk).2.2, (weights_ignored_kcore A k).1]
+
+theorem weights_ignored_kcore_kn_bu (A : AMat Int n) (hsym : ∀ i j, A.get i j = A.get j i) (k : ℕ) (hk : 1 ≤ k) :
+    (Core.kcoreBu (binI A) k).kn = (Core.kcoreBu A k).kn := by
+  have hsym' : ∀ i j, (binI A).get i j = (binI A).get j i := by
+    intro i j; simp only [binI, map_get, hsym i j]
+  rw [(C15.kcore_bu_correct (binI A) hsym' k hk).2.2, (C15.kcore_bu_correct A hsym k hk).2.2,
+    (weights_ignored_kcore A k).2 hsym]
 
 /-! ## non-vacuity -/
 section Examples
@@ -216,6 +224,8 @@ example : (Between.brandes true L3).map Prod.snd = Between.betweennessBin L3 := 
 example : Dist.distBin (adj W3) = Dist.distBin W3 := (weights_ignored_dist W3).1
 example : C15.coreOfBd (binI I3) 2 = C15.coreOfBd I3 2 := (weights_ignored_kcore I3 2).1
 example : (Core.kcoreBd (binI I3) 2).kn = (Core.kcoreBd I3 2).kn := weights_ignored_kcore_kn I3 2 (by norm_num)
+example : (Core.kcoreBu (binI I3) 2).kn = (Core.kcoreBu I3 2).kn :=
+  weights_ignored_kcore_kn_bu I3 (fun i j => by simp only [I3, AMat.get_ofFn, eq_comm]) 2 (by norm_num)
 /-- the reductions are not empty statements: the common value on the triangle is 1 -/
 example : (ccWu K3 K3)[(0 : Fin 3)] = some 1 := by
   rw [wu_eq_bu_on01 K3_bin K3_symm K3_diag, ccBu_bin_symm K3_bin K3_symm]
